@@ -542,7 +542,7 @@ pub fn stages(ctx: &Ctx) -> Vec<Stage> {
         let c = gen_case(&mut rng, complex, kind);
         run_dyn(rep, &c);
     }));
-    st.push(Stage::new("random", tier.pick(40_000, 400_000), move |i, rep| {
+    st.push(Stage::new("random", tier.pick(40_000, 4_000_000), move |i, rep| {
         let mut rng = Rng::for_case(seed, "c12-random", i);
         let complex = i % 2 == 1;
         let k = rng.below(100);
